@@ -959,6 +959,14 @@ def _generator_clauses(ctx: Ctx):
     ctx.check(ok, "generator-literal-name-stable", "inherited-literal",
               f"an anonymous literal on a base-structure property gets the struct names {names} through two inheriting "
               "structures and the base: the field type must be the same non-empty struct name each time", flatten.P_RC, None)
+    for (shape, optional, null_adm), field in sorted(flatten.fold_rust_option(idx).items(), key=repr):
+        want = bool(optional) or null_adm
+        got = ": Option<" in field
+        ctx.check(field.startswith("pub ") and got == want, "generator-option-iff-optional-or-null",
+                  f"type={shape} optional={optional}",
+                  f"a property of type {shape} with optional={'absent' if optional is None else str(optional).lower()} is emitted as "
+                  f"`{field}`: the field must be Option-wrapped exactly when the property is optional or its type admits null",
+                  flatten.P_RC, None, sample={"type": shape, "optional": optional, "field": field})
     ex = flatten.fold_rust_extras(idx)
     gate = '#[cfg(feature = "proposed")]'
     for (dep, prop), lines in sorted(ex.items()):
